@@ -910,6 +910,24 @@ def field_after_decode_present(t, f, j):
             or getattr(t.definition, f[0]).nullable or getattr(t.definition, f[0]).default is not NO_DEFAULT)
 
 
+def required_field(t, f):
+    """a field the spec declares without default and not nullable"""
+    return getattr(t.definition, f[0]).default is NO_DEFAULT and not getattr(t.definition, f[0]).nullable
+
+
+def omits_required_field(t, j):
+    """C06 must-reject clause, taken from the statement: "documents that omit a required field ... are rejected" """
+    return (isinstance(t, bv.Struct) and not isinstance(t, bv.StructTree) and isinstance(j, dict)
+            and any(f[0] not in j and required_field(t, f) for f in t.definition._all_fields_))
+
+
+def omitted_required_are_defaultable_structs(t, j):
+    """the shape of known finding K-C06-structdefault: every omitted required field has a struct type
+    without required fields (the decoder fills in an empty instance instead of refusing)"""
+    return all(f[0] in j or not required_field(t, f) or (isinstance(f[1], bv.Struct) and has_default_v(f[1]))
+               for f in t.definition._all_fields_)
+
+
 def union_tag_known(t, tag):
     return tag in t.definition._tagmap
 
